@@ -62,12 +62,23 @@ Definition obs_full (a : ans) : bool :=
 Definition obs_has_fut (a : ans) : bool :=
   match a with AState _ _ (Some _) _ => true | _ => false end.
 
-(* must x be answered "dropped"?  Scan the past backwards.
-   rots  : rotating Maintain events seen so far (they all happened after the scan position)
-   first : the earliest draining event seen so far: Some (rotations after it, future existed, was a Drain) *)
-Fixpoint must_dropped (x : N) (past : list ev) (rots : N) (first : option (N * bool * bool)) : bool :=
+(* has a rotating Maintain happened in [past]?  After the first rotation a future generation always exists
+   (C31_rotation_installs_a_filter: the rotation creates a new one), whatever the implementation reports *)
+Fixpoint rotated_before (past : list ev) : bool :=
   match past with
   | [] => false
+  | (Maintain, _, _) :: r =>
+      if match r with (Drain, a', _) :: _ => obs_full a' | _ => false end then true else rotated_before r
+  | _ :: r => rotated_before r
+  end.
+
+(* must x be answered "dropped"?  0 = no obligation, 1 = yes (no rotation since its drain), 2 = yes across one
+   rotation (it was drained while a future generation existed / had to exist).  Scan the past backwards.
+   rots  : rotating Maintain events seen so far (they all happened after the scan position)
+   first : the earliest draining event seen so far: Some (rotations after it, future observed, was a Drain) *)
+Fixpoint must_dropped (x : N) (past : list ev) (rots : N) (first : option (N * bool * bool)) : N :=
+  match past with
+  | [] => 0%N
   | (o, a, _) :: r =>
       match o with
       | Maintain =>
@@ -78,12 +89,17 @@ Fixpoint must_dropped (x : N) (past : list ev) (rots : N) (first : option (N * b
       | RecDropped y =>
           (* nested ifs: vm_compute evaluates the arguments of && eagerly *)
           if N.eqb y x then
-            if match first with
-               | Some (n, hasfut, true) => N.eqb n 0 || (hasfut && (n <=? 1)%N)
-               | _ => false
-               end
-            then if (pending_before r <? add_queue_depth)%N then true else must_dropped x r rots first
-            else must_dropped x r rots first
+            match first with
+            | Some (n, hasfut, true) =>
+                if N.eqb n 0 then
+                  if (pending_before r <? add_queue_depth)%N then 1%N else must_dropped x r rots first
+                else if N.eqb n 1 then
+                  if hasfut then (if (pending_before r <? add_queue_depth)%N then 2%N else must_dropped x r rots first)
+                  else if rotated_before r then (if (pending_before r <? add_queue_depth)%N then 2%N else must_dropped x r rots first)
+                  else must_dropped x r rots first
+                else must_dropped x r rots first
+            | _ => must_dropped x r rots first
+            end
           else must_dropped x r rots first
       | _ => must_dropped x r rots first
       end
@@ -136,10 +152,15 @@ Definition code_kept_forgotten : N := 11%N.
 Definition code_kept_wrong : N := 12%N.
 Definition code_resize_lost : N := 13%N.
 Definition code_phantom : N := 14%N.
+Definition code_dropped_forgotten_after_rotation : N := 15%N.
 
 Definition judge (x : N) (a : ans) (past : list ev) (cap : N) : codes :=
-  if must_dropped x past 0%N None then
-    match a with ADropped => [] | _ => [code_dropped_forgotten] end
+  let md := must_dropped x past 0%N None in
+  if negb (N.eqb md 0) then
+    match a with
+    | ADropped => []
+    | _ => [if N.eqb md 2 then code_dropped_forgotten_after_rotation else code_dropped_forgotten]
+    end
   else
     match must_kept x past [] cap false with
     | Some (rate, reason, resized) =>
